@@ -28,6 +28,7 @@ func init() {
 		NonTrivial: nonTrivial,
 		Rule: "stream `calls`: 6–14 independent calls per case of Diff/Intersect/Unique/UniqueByKey/Filter (dst ∈ nil, fresh with any len/cap, s1[:k], s2[:k]), their InPlace variants, Equal/Index/IndexFunc/Contains, SubSlice/Copy/Remove with indices −2..len+2, Chunk/ChunkProcess (sizes −1..len+2, failing callback), Values; ints from 0..4, lengths 0..8, nil vs empty; " +
 			"stream `flex`: FlexSlice op sequences (Append/Prepend bursts, Get/Remove/Pop/Shift/SubSlice) from initial capacities 0..40 crossing the growth and cap/4 shrink thresholds, backing array compared cell by cell; " +
+			"stream `large` (≈ 1.3 % of the cases): 2–4 calls on slices of up to 2000 elements with 16…1500 distinct values from ranges up to 5000 and a controlled duplicate structure (every new value may be repeated at once, the last new values are repeated at the end) for Diff/Intersect/Unique/UniqueByKey (key counts around the distinct count)/Filter, their InPlace variants, all dst layouts, Chunk/ChunkProcess sizes around the length, Copy/SubSlice/Remove/Equal/Index/Values at the far end; stream `large-flex`: FlexSlice with capacities 200…5000 driven by bulk ops (appendn/prependn/popn/shiftn), Prepend batches of every size class relative to the capacity (fits in place, just too big, ≤1.25·cap, 1.25–2·cap, >2·cap), growth across runtime size classes, drains across cap/4 from large, refill; state compared by length, capacity and hashes of content and backing array; " +
 			"non-trivial = a calls case with at least one aliased-dst or in-place call on a slice with duplicates, or a flex case with at least one reallocation (growth or shrink); distinct by hash of the case",
 		Classify: classify,
 		Parallel: true,
@@ -113,7 +114,7 @@ func mkDst(tok string, s1, s2 []int) ([]int, bool) {
 	case len(p) == 3 && p[0] == "fresh":
 		l, e1 := strconv.Atoi(p[1])
 		c, e2 := strconv.Atoi(p[2])
-		if e1 != nil || e2 != nil || l < 0 || c < l || c > 64 {
+		if e1 != nil || e2 != nil || l < 0 || c < l || c > 8192 {
 			return nil, false
 		}
 		d := make([]int, l, c)
@@ -389,8 +390,28 @@ func call(ts []string) string {
 
 // ---------------------------------------------------------------- FlexSlice
 
-func showFlex(f *slicez.FlexSlice[int]) string {
+func hashInts(xs []int) int64 {
+	var h int64
+	for _, v := range xs {
+		h = (h*1000003 + int64(v) + 7) % 1000000007
+	}
+	return h
+}
+
+// showFlex: `len cap [backing array]`, or for the large stream `len cap hash(Values) hash(backing array)`.
+func showFlex(compact bool, f *slicez.FlexSlice[int]) string {
+	if compact {
+		return fmt.Sprintf("%d %d %d %d", len(f.Values), cap(f.Values), hashInts(f.Values), hashInts(f.Values[:cap(f.Values)]))
+	}
 	return fmt.Sprintf("%d %d %s", len(f.Values), cap(f.Values), showInts(f.Values[:cap(f.Values)]))
+}
+
+func seqFrom(v0, k int) []int {
+	r := make([]int, k)
+	for i := range r {
+		r[i] = v0 + i
+	}
+	return r
 }
 
 func parseInts(ts []string) ([]int, bool) {
@@ -416,11 +437,13 @@ func impl(c core.Case) []string {
 		return out
 	}
 	var f slicez.FlexSlice[int]
+	compact := false
 	return core.RunOps(c,
 		func(h []string) string {
-			if len(h) != 2 || h[0] != "flex" {
+			if len(h) != 2 || (h[0] != "flex" && h[0] != "flexL") {
 				return "bad-op"
 			}
+			compact = h[0] == "flexL"
 			c0, err := strconv.Atoi(h[1])
 			if err != nil || c0 < 0 {
 				return "bad-op"
@@ -442,7 +465,45 @@ func impl(c core.Case) []string {
 				} else {
 					f.Prepend(v...)
 				}
-				return "ok | " + showFlex(&f)
+				return "ok | " + showFlex(compact, &f)
+			case "appendn", "prependn":
+				if len(t) != 3 {
+					return "bad-op"
+				}
+				k, e1 := strconv.Atoi(t[1])
+				v0, e2 := strconv.Atoi(t[2])
+				if e1 != nil || e2 != nil || k < 0 {
+					return "bad-op"
+				}
+				if t[0] == "appendn" {
+					f.Append(seqFrom(v0, k)...)
+				} else {
+					f.Prepend(seqFrom(v0, k)...)
+				}
+				return "ok | " + showFlex(compact, &f)
+			case "popn", "shiftn":
+				if len(t) != 2 {
+					return "bad-op"
+				}
+				k, err := strconv.Atoi(t[1])
+				if err != nil || k < 0 {
+					return "bad-op"
+				}
+				sum, n := 0, 0
+				for j := 0; j < k; j++ {
+					var v int
+					var ok bool
+					if t[0] == "popn" {
+						v, ok = f.Pop()
+					} else {
+						v, ok = f.Shift()
+					}
+					sum += v
+					if ok {
+						n++
+					}
+				}
+				return fmt.Sprintf("%d %d | %s", sum, n, showFlex(compact, &f))
 			case "get", "remove":
 				if len(t) != 2 {
 					return "bad-op"
@@ -458,7 +519,7 @@ func impl(c core.Case) []string {
 				} else {
 					v, ok = f.Remove(i)
 				}
-				return fmt.Sprintf("%d %v | %s", v, ok, showFlex(&f))
+				return fmt.Sprintf("%d %v | %s", v, ok, showFlex(compact, &f))
 			case "pop", "shift":
 				if len(t) != 1 {
 					return "bad-op"
@@ -470,7 +531,7 @@ func impl(c core.Case) []string {
 				} else {
 					v, ok = f.Shift()
 				}
-				return fmt.Sprintf("%d %v | %s", v, ok, showFlex(&f))
+				return fmt.Sprintf("%d %v | %s", v, ok, showFlex(compact, &f))
 			case "sub", "subset":
 				if len(t) != 3 {
 					return "bad-op"
@@ -482,10 +543,10 @@ func impl(c core.Case) []string {
 				}
 				nf := f.SubSlice(a, b)
 				if t[0] == "sub" {
-					return showFlex(&nf)
+					return showFlex(compact, &nf)
 				}
 				f = nf
-				return "ok | " + showFlex(&f)
+				return "ok | " + showFlex(compact, &f)
 			case "len":
 				if len(t) != 1 {
 					return "bad-op"
@@ -691,7 +752,330 @@ func genFlex(r *core.Rand) core.Case {
 	return core.Case{Lines: lines, Tag: "flex"}
 }
 
+// ---------------------------------------------------------------- large stream
+
+// distinct-value counts around every plausible internal threshold
+var bigD = []int{16, 17, 31, 32, 33, 34, 63, 64, 65, 66, 128, 255, 256, 257, 258, 1024, 1025}
+
+// genBigList: d distinct values drawn from 0..span-1 in a random order of first appearance.
+// After each new value the LAST new value or an earlier one may be repeated; the tail repeats
+// the last few new values (so "the k-th distinct value was not recorded" shows for every k),
+// optionally followed by a second pass over earlier values.  At most maxLen elements.
+func genBigList(r *core.Rand, d, span, maxLen int) []int {
+	if span < d {
+		span = d
+	}
+	perm := make([]int, span)
+	for i := range perm {
+		perm[i] = i
+	}
+	for i := 0; i < d; i++ { // partial Fisher-Yates
+		j := i + r.Intn(span-i)
+		perm[i], perm[j] = perm[j], perm[i]
+	}
+	vals := perm[:d]
+	dupLast, dupOld := r.Range(0, 35), r.Range(0, 25)
+	var out []int
+	for i, v := range vals {
+		out = append(out, v)
+		if r.Chance(dupLast) {
+			out = append(out, v)
+		}
+		if r.Chance(dupOld) {
+			out = append(out, vals[r.Intn(i+1)])
+		}
+	}
+	for k := 0; k < 4 && k < d; k++ { // repeats of the last new values, newest first
+		if k == 0 || r.Chance(60) {
+			out = append(out, vals[d-1-k])
+		}
+	}
+	if r.Chance(40) {
+		m := r.Range(1, 40)
+		for k := 0; k < m; k++ {
+			out = append(out, vals[r.Intn(d)])
+		}
+		out = append(out, vals[d-1])
+	}
+	if len(out) > maxLen {
+		out = out[:maxLen]
+	}
+	return out
+}
+
+func joinInts(xs []int) string {
+	if len(xs) == 0 {
+		return "e"
+	}
+	ss := make([]string, len(xs))
+	for i, x := range xs {
+		ss[i] = strconv.Itoa(x)
+	}
+	return strings.Join(ss, " ")
+}
+
+func genLargeCalls(r *core.Rand, tier string) core.Case {
+	lines := []string{"@ C14 calls"}
+	n := r.Range(2, 4)
+	for i := 0; i < n; i++ {
+		w := []int{30, 30, 22, 8, 6, 4}
+		if tier == "thorough" {
+			w = []int{20, 25, 20, 15, 10, 10}
+		}
+		var d int
+		switch r.Pick(w...) {
+		case 0:
+			d = []int{16, 17, 31, 32, 33, 34}[r.Intn(6)]
+		case 1:
+			d = []int{32, 33, 34, 63, 64, 65, 66}[r.Intn(7)]
+		case 2:
+			d = []int{128, 255, 256, 257, 258}[r.Intn(5)]
+		case 3:
+			d = r.Range(9, 300)
+		case 4:
+			d = []int{1024, 1025}[r.Intn(2)]
+		default:
+			d = r.Range(300, 1500)
+		}
+		span := []int{d, d + 1, 71, 301, 2 * d, 5000}[r.Intn(6)]
+		s1 := genBigList(r, d, span, 2000)
+		// second operand: about half of s1's values plus foreign ones
+		var s2 []int
+		switch r.Pick(50, 20, 10, 10, 10) {
+		case 0:
+			for _, v := range s1 {
+				if r.Chance(50) {
+					s2 = append(s2, v)
+				}
+			}
+			for k := r.Range(0, 20); k > 0; k-- {
+				s2 = append(s2, span+r.Intn(50))
+			}
+		case 1:
+			s2 = genBigList(r, bigD[r.Intn(len(bigD)-2)], span, 1200)
+		case 2:
+			s2 = []int{s1[len(s1)-1]}
+		case 3:
+			s2 = append([]int(nil), s1...)
+		default:
+			s2 = nil
+		}
+		l1, l2 := joinInts(s1), joinInts(s2)
+		n1 := len(s1)
+		near := func(x int) int { return x + r.Range(-2, 2) }
+		dst := func(allowS2 bool) string {
+			switch r.Pick(10, 25, 50, 15) {
+			case 0:
+				return "nil"
+			case 1:
+				c := []int{0, n1 - 1, n1, n1 + 1, d - 1, d, d + 1, 2 * n1}[r.Intn(8)]
+				if c < 0 {
+					c = 0
+				}
+				return fmt.Sprintf("fresh:%d:%d", r.Range(0, c), c)
+			case 2:
+				return fmt.Sprintf("s1:%d", []int{0, 0, 0, n1, r.Range(0, n1)}[r.Intn(5)])
+			}
+			if allowS2 {
+				return fmt.Sprintf("s2:%d", []int{0, len(s2)}[r.Intn(2)])
+			}
+			return "s1:0"
+		}
+		key := []int{d - 1, d, d + 1, 33, 34, 65, 257, 40, 300}[r.Intn(9)]
+		if key < 1 {
+			key = 1
+		}
+		switch r.Pick(12, 10, 18, 12, 8, 6, 6, 8, 6, 5, 3, 6, 4, 4, 4, 3, 3) {
+		case 0:
+			lines = append(lines, fmt.Sprintf("diff %s ; %s ; %s", dst(true), l1, l2))
+		case 1:
+			lines = append(lines, fmt.Sprintf("intersect %s ; %s ; %s", dst(true), l1, l2))
+		case 2:
+			lines = append(lines, fmt.Sprintf("unique %s ; %s", dst(false), l1))
+		case 3:
+			lines = append(lines, fmt.Sprintf("uniquekey %d %s ; %s", key, dst(false), l1))
+		case 4:
+			lines = append(lines, fmt.Sprintf("filter %s ; %s ; %s", dst(false), l1, l2))
+		case 5:
+			lines = append(lines, fmt.Sprintf("diffip ; %s ; %s", l1, l2))
+		case 6:
+			lines = append(lines, fmt.Sprintf("intersectip ; %s ; %s", l1, l2))
+		case 7:
+			lines = append(lines, fmt.Sprintf("uniqueip ; %s", l1))
+		case 8:
+			lines = append(lines, fmt.Sprintf("uniquekeyip %d ; %s", key, l1))
+		case 9:
+			lines = append(lines, fmt.Sprintf("filterip ; %s ; %s", l1, l2))
+		case 10:
+			e := append([]int(nil), s1...)
+			if r.Bool() {
+				e[len(e)-1]++
+			}
+			lines = append(lines, fmt.Sprintf("equal ; %s ; %s", l1, joinInts(e)))
+		case 11:
+			cs := []int{1, 2, 32, 33, 64, 256, n1 / 2, n1/2 + 1, n1 - 1, n1, n1 + 1, d}[r.Intn(12)]
+			lines = append(lines, fmt.Sprintf("chunk %d ; %s", cs, l1))
+		case 12:
+			cs := []int{2, 33, 64, n1 / 3, n1 - 1, n1, n1 + 1}[r.Intn(7)]
+			lines = append(lines, fmt.Sprintf("chunkproc %d %d ; %s", cs, r.Range(0, 4), l1))
+		case 13:
+			lines = append(lines, fmt.Sprintf("copy %d %d ; %s", []int{-1, 0, 1, near(n1 / 2), near(n1)}[r.Intn(5)], []int{-1, near(n1), near(n1 / 2), 33}[r.Intn(4)], l1))
+		case 14:
+			lines = append(lines, fmt.Sprintf("subslice %d %d ; %s", []int{-1, 0, near(n1 / 2), near(n1)}[r.Intn(4)], []int{-1, near(n1), near(n1 / 2)}[r.Intn(3)], l1))
+		case 15:
+			lines = append(lines, fmt.Sprintf("remove %d ; %s", []int{0, near(n1 / 2), n1 - 2, n1 - 1, n1}[r.Intn(5)], l1))
+		default:
+			if r.Bool() {
+				lines = append(lines, fmt.Sprintf("index %d ; %s", s1[len(s1)-1], l1))
+			} else {
+				lines = append(lines, fmt.Sprintf("values %d ; %s ; %s", r.Range(1, 3), l1, l2))
+			}
+		}
+	}
+	return core.Case{Lines: lines, Tag: "large"}
+}
+
+// genLargeFlex: FlexSlice with capacities in the hundreds/thousands, bulk ops so that cases
+// stay short.  Prepend batches of every size class relative to the capacity (fits in place,
+// just too big, ≤ 1.25·cap, 1.25..2·cap, > 2·cap), growth by Append across size classes,
+// shrinking from large by Pop/Shift/Remove/SubSlice, refill.
+func genLargeFlex(r *core.Rand, tier string) core.Case {
+	caps := []int{200, 255, 256, 257, 300, 511, 512, 513, 640, 1000, 1023, 1024, 1025}
+	if tier == "thorough" && r.Chance(40) || r.Chance(6) {
+		caps = append(caps, 2048, 3000, 4096, 5000)
+	}
+	c0 := caps[r.Intn(len(caps))]
+	if r.Chance(25) {
+		c0 = r.Range(200, 1100)
+	}
+	lines := []string{fmt.Sprintf("@ C14 flexL %d", c0)}
+	emit := func(f string, a ...any) { lines = append(lines, fmt.Sprintf(f, a...)) }
+	next := 1
+	size, cp := 0, c0 // estimates (exact while only Prepend grows)
+	addn := func(op string, k int) {
+		if k < 0 {
+			k = 0
+		}
+		emit("%s %d %d", op, k, next)
+		next += k
+		size += k
+		if size > cp {
+			if op == "prependn" {
+				if 2*cp >= size {
+					cp = 2 * cp
+				} else {
+					cp = size
+				}
+			} else {
+				cp = size // at least; the runtime rounds up
+				if 2*(cp-k) > cp {
+					cp = 2 * (size - k)
+				}
+			}
+		}
+	}
+	// initial fill
+	switch r.Pick(45, 25, 15, 15) {
+	case 0:
+		addn("appendn", c0) // exactly full
+	case 1:
+		addn("appendn", c0-[]int{1, 2, 33, c0 / 4, c0 / 2}[r.Intn(5)])
+	case 2:
+		addn("prependn", c0)
+	default:
+		addn("appendn", c0+[]int{1, c0 / 4, c0, 2 * c0}[r.Intn(4)]) // growth by append first
+	}
+	n := r.Range(4, 9)
+	for i := 0; i < n && size < 7000; i++ {
+		free := cp - size
+		switch r.Pick(34, 10, 18, 12, 8, 8, 5, 5) {
+		case 0: // prepend of a chosen size class relative to the capacity
+			var k int
+			switch r.Pick(15, 15, 20, 20, 15, 15) {
+			case 0:
+				k = []int{1, free / 2, free - 1, free}[r.Intn(4)] // fits in place
+			case 1:
+				k = free + 1 // just too big
+			case 2:
+				k = free + []int{cp / 8, cp/4 - 1, cp / 4}[r.Intn(3)] // ≤ 1.25·cap
+			case 3:
+				k = free + []int{cp/4 + 1, cp / 2, cp - 1, cp}[r.Intn(4)] // 1.25..2·cap
+			case 4:
+				k = free + cp + []int{1, 2, cp / 2}[r.Intn(3)] // > 2·cap
+			default:
+				k = r.Range(1, cp)
+			}
+			addn("prependn", k)
+		case 1:
+			addn("appendn", []int{1, free, free + 1, cp / 4, cp}[r.Intn(5)])
+		case 2: // drain towards / below the shrink threshold
+			k := size - []int{cp / 4, cp/4 + 1, cp/4 - 1, 3, 0, size / 2}[r.Intn(6)]
+			if k < 1 {
+				k = 1
+			}
+			if k > 2000 {
+				k = 2000
+			}
+			op := "popn"
+			if r.Bool() {
+				op = "shiftn"
+			}
+			emit("%s %d", op, k)
+			size -= k
+			if size < 0 {
+				size = 0
+			}
+			if cp > 8 && size <= cp/4 {
+				cp = 2 * size
+				if cp < 8 {
+					cp = 8
+				}
+			}
+		case 3:
+			emit("get %d", []int{-1, 0, size / 2, size - 1, size, size + 1}[r.Intn(6)])
+		case 4:
+			if size > 0 {
+				emit("remove %d", []int{0, size / 2, size - 1}[r.Intn(3)])
+				size--
+			}
+		case 5:
+			emit("sub %d %d", []int{-1, 0, size / 2, size - 3}[r.Intn(4)], []int{-1, size, size / 2, size/2 + 2}[r.Intn(4)])
+		case 6:
+			a, b := []int{0, size / 2, size - 3, size - 40}[r.Intn(4)], -1
+			if a < 0 {
+				a = 0
+			}
+			emit("subset %d %d", a, b)
+			cp -= a
+			size -= a
+			if cp > 8 && size <= cp/4 {
+				cp = 2 * size
+				if cp < 8 {
+					cp = 8
+				}
+			}
+		default:
+			emit("len")
+		}
+	}
+	emit("get %d", size-1)
+	emit("len")
+	return core.Case{Lines: lines, Tag: "large-flex"}
+}
+
 func gen(r *core.Rand, tier string) core.Case {
+	// large stream: ≈ 1.3 % of a quick run, 0.6 % of the far larger thorough budget (with tier == "thorough" — also used on anchor drift — the
+	// larger budget gives proportionally more of them and the bigger size classes are added)
+	share := 13
+	if tier == "thorough" {
+		share = 6 // 2 000 000 cases: ≈ 12 000 large ones; the list-based Lean model sets the pace
+	}
+	if r.Intn(1000) < share {
+		if r.Chance(72) {
+			return genLargeCalls(r, tier)
+		}
+		return genLargeFlex(r, tier)
+	}
 	if r.Chance(30) {
 		return genFlex(r)
 	}
@@ -840,7 +1224,7 @@ func checkCall(line, o string) *core.Failure {
 		ls = append(ls, l)
 	}
 	fail := func(key, want string) *core.Failure {
-		return &core.Failure{Key: key, Desc: fmt.Sprintf("call %q answered %q; by definition: %s", line, o, want)}
+		return &core.Failure{Key: key, Desc: fmt.Sprintf("call %q answered %q; by definition: %s", clip(line), clip(o), clip(want))}
 	}
 	if o == "bad-op" {
 		return nil
@@ -1096,13 +1480,28 @@ func checkChunks(cs [][]int, s []int, n int, _ bool) string {
 	return ""
 }
 
+func clip(s string) string {
+	if len(s) > 300 {
+		return s[:300] + "…"
+	}
+	return s
+}
+
+func clipInts(xs []int) string {
+	if len(xs) > 40 {
+		return fmt.Sprintf("%d elements %s…%s", len(xs), showInts(xs[:8]), showInts(xs[len(xs)-8:]))
+	}
+	return showInts(xs)
+}
+
 func checkFlex(c core.Case, out []string) *core.Failure {
+	compact := core.Toks(c.Lines[0])[2] == "flexL"
 	var spec []int
 	for i := 1; i < len(c.Lines); i++ {
 		t := core.Toks(c.Lines[i])
 		o := out[i]
 		fail := func(key, want string) *core.Failure {
-			return &core.Failure{Key: key, Desc: fmt.Sprintf("op %d %q answered %q; a plain sequence holding %v answers %s", i, c.Lines[i], o, spec, want)}
+			return &core.Failure{Key: key, Desc: fmt.Sprintf("op %d %q answered %q; a plain sequence holding %s answers %s", i, c.Lines[i], clip(o), clipInts(spec), want)}
 		}
 		if o == "panic" || o == "dead" {
 			return fail("panic", "no panic")
@@ -1112,7 +1511,23 @@ func checkFlex(c core.Case, out []string) *core.Failure {
 		}
 		res, state, _ := strings.Cut(o, " | ")
 		var want string
-		content := func(st string) ([]int, bool) { // `len cap [mem]` → mem[:len]
+		// sameContent: does the printed state hold exactly the sequence w?
+		var content func(st string) ([]int, bool)
+		sameContent := func(st string, w []int) bool {
+			if compact { // `len cap hash(Values) hash(mem)`
+				p := strings.Fields(st)
+				if len(p) != 4 {
+					return false
+				}
+				l, e1 := strconv.Atoi(p[0])
+				cp, e2 := strconv.Atoi(p[1])
+				h, e3 := strconv.ParseInt(p[2], 10, 64)
+				return e1 == nil && e2 == nil && e3 == nil && l == len(w) && l <= cp && h == hashInts(w)
+			}
+			got, ok := content(st)
+			return ok && slices.Equal(got, w)
+		}
+		content = func(st string) ([]int, bool) { // `len cap [mem]` → mem[:len]
 			p := splitOut(st)
 			if len(p) != 3 {
 				return nil, false
@@ -1134,6 +1549,29 @@ func checkFlex(c core.Case, out []string) *core.Failure {
 			v, _ := parseInts(t[1:])
 			spec = append(append([]int(nil), v...), spec...)
 			want = "ok"
+		case "appendn", "prependn":
+			k, _ := strconv.Atoi(t[1])
+			v0, _ := strconv.Atoi(t[2])
+			if t[0] == "appendn" {
+				spec = append(spec, seqFrom(v0, k)...)
+			} else {
+				spec = append(seqFrom(v0, k), spec...)
+			}
+			want = "ok"
+		case "popn", "shiftn":
+			k, _ := strconv.Atoi(t[1])
+			sum, n := 0, 0
+			for j := 0; j < k && len(spec) > 0; j++ {
+				if t[0] == "popn" {
+					sum += spec[len(spec)-1]
+					spec = spec[:len(spec)-1]
+				} else {
+					sum += spec[0]
+					spec = spec[1:]
+				}
+				n++
+			}
+			want = fmt.Sprintf("%d %d", sum, n)
 		case "get":
 			i, _ := strconv.Atoi(t[1])
 			if i >= 0 && i < len(spec) {
@@ -1168,8 +1606,7 @@ func checkFlex(c core.Case, out []string) *core.Failure {
 				w = append(w, spec[a:b]...)
 			}
 			if t[0] == "sub" {
-				got, ok := content(o)
-				if !ok || !slices.Equal(got, w) {
+				if !sameContent(o, w) {
 					return fail("flex-subslice", showInts(w))
 				}
 				continue
@@ -1185,8 +1622,10 @@ func checkFlex(c core.Case, out []string) *core.Failure {
 		if res != want {
 			return fail("flex-seq", want)
 		}
-		got, ok := content(state)
-		if !ok || !slices.Equal(got, spec) {
+		if !sameContent(state, spec) {
+			if len(spec) > 40 {
+				return fail("flex-seq", fmt.Sprintf("a sequence of %d elements with hash %d", len(spec), hashInts(spec)))
+			}
 			return fail("flex-seq", "content "+showInts(spec))
 		}
 	}
@@ -1198,7 +1637,7 @@ func check(c core.Case, out []string) *core.Failure {
 	if out[0] != "ok" || len(hdr) < 3 {
 		return nil
 	}
-	if hdr[2] == "flex" {
+	if (hdr[2] == "flex" || hdr[2] == "flexL") {
 		return checkFlex(c, out)
 	}
 	for i := 1; i < len(c.Lines); i++ {
@@ -1244,7 +1683,7 @@ func nonTrivial(c core.Case, out []string) bool {
 	if len(hdr) < 3 {
 		return false
 	}
-	if hdr[2] == "flex" {
+	if (hdr[2] == "flex" || hdr[2] == "flexL") {
 		caps := flexCaps(out)
 		for i := 1; i < len(caps); i++ {
 			if caps[i] != caps[i-1] {
@@ -1279,7 +1718,7 @@ func classify(c core.Case, out []string) []string {
 	if len(hdr) < 3 {
 		return nil
 	}
-	if hdr[2] == "flex" {
+	if (hdr[2] == "flex" || hdr[2] == "flexL") {
 		prevCap := -1
 		for i, l := range c.Lines[1:] {
 			t := core.Toks(l)
